@@ -92,6 +92,16 @@ CHECKS["C16"] = dict(
          "distance to every implementation vertex; generators appended beyond the safety ball (all periodic images outside) leave the cell unchanged.",
     note="Partial: 'the farthest point of the maintained polytope is one of the maintained vertices' (VerticesSpan) is not proved for d = 2, 3.", design="5 C16")
 
+CHECKS["C17"] = dict(
+    technique="Coq proof by induction on the heap fuel (best-first search over any well-formed tree, any admissible pop) + differential run on the hooked neighbour stream and the dumped R-tree",
+    text="Kernel-checked for every R-tree whose envelopes contain their children, every query, every shift list and every heap discipline that pops a minimal element: "
+         "the stream is a permutation of all (leaf, shift) pairs and is sorted by exact squared distance; the clamp envelope bound is admissible and nested. Tie: the hooked "
+         "untruncated stream for several queries per input (n up to 300 quick / 1e4 thorough, lattices with many ties, clusters, all scales, 1D/2D/3D, periodic or not): "
+         "self first, each (generator, image) once, lattice shifts absent iff zero, order up to the rounding band; the dumped tree satisfies wf_tree; streams equal the "
+         "extracted model's on the dumped tree up to equal-key groups.",
+    note="Outside the model: rounding of the floating-point keys (sub-ulp reorderings are inside the tested band); rstar's own nearest_neighbor_iter (non-periodic path) and "
+         "bulk loading are external code, tested through the same spec but not modelled.", design="5 C17")
+
 NOT_YET = {}
 
 ALL = ["C%02d" % i for i in range(1, 21)]
@@ -124,7 +134,7 @@ def main():
             "enable": "RUSTFLAGS='--cfg meshless_voro_verif' cargo build (the harness crate in /verif/harness depends on /repo by path)",
             "baseline_off_cmd": "cd /repo && cargo test --workspace --no-fail-fast --offline",
             "source_commits": ["2ec7ecd"],
-            "fix_commits": ["09dfeb6", "acc62b6", "e7978d5"],
+            "fix_commits": ["09dfeb6", "acc62b6", "e7978d5", "ab48a7b"],
             "add_only": True,
         },
         "engines": [{
